@@ -444,6 +444,9 @@ struct type *typeadjust(struct type *, enum typequal *);
 enum typeprop typeprop(struct type *);
 struct member *typemember(struct type *, const char *, unsigned long long *);
 bool typehasint(struct type *, unsigned long long, bool);
+#ifdef CPROC_VERIF
+const char *vtypename(struct type *);
+#endif
 
 extern struct type typevoid;
 extern struct type typebool;
